@@ -1,10 +1,19 @@
 #!/usr/bin/env python3
+"""tools/seedprompt.py Cxx [round]: prompt for an independent seeding agent (round 2 => changes C and D)."""
 import json, sys
 pid = sys.argv[1]
+rnd = sys.argv[2] if len(sys.argv) > 2 else "1"
 t = open('/verif/docs/SEED_PROMPT.md').read()
+if rnd == "2":
+    t = t.replace("(call them A and B)", "(call them C and D)").replace("{OUT}/A and {OUT}/B", "{OUT}/C and {OUT}/D") \
+         .replace("A and B must break", "C and D must break")
+    t = t.replace("Deliverables, in", "Look for mechanisms beyond the obvious single-function slip: a fault or error path, a crash point, a "
+                  "particular interleaving, persisted state read back later, an unusual but legal configuration, two sites that "
+                  "must stay consistent with each other.\n\nDeliverables, in")
 for l in open('/verif/properties.jsonl'):
     p = json.loads(l)
     if p['id'] == pid:
-        print(t.replace('{WT}', '/tmp/seedwt-' + pid).replace('{OUT}', '/tmp/seedout-' + pid).replace('{PID}', pid)
+        wt, out = ('/tmp/seedwt-' + pid, '/tmp/seedout-' + pid) if rnd == "1" else ('/tmp/seed2wt-' + pid, '/tmp/seedout2-' + pid)
+        print(t.replace('{WT}', wt).replace('{OUT}', out).replace('{PID}', pid)
               .replace('{TITLE}', p['title']).replace('{STATEMENT}', p['statement'])
               .replace('{QUANT}', p['quantifier']['text']).replace('{FILES}', ', '.join(p['anchors']['files'])))
